@@ -216,6 +216,7 @@ class BoolExpr:
             pa = pa + R.polys_of(regs["C"])
         d2 = near_contact_d2(pa, pb)
         sig["near_contact_1e-5"] = bool(d2 is not None and d2 < F(1, 10**10))
+        sig["boundaries_transversal"] = bool(R.x_transversal(pa, pb))
         sig["_min_nonzero_vertex_to_other_boundary_dist2"] = str(d2)
         return sig
 
